@@ -22,7 +22,16 @@ func VerifC07Teardown() {
 	inb, outb := vParam("INB", 3), vParam("OUTB", 0)
 	stream := ":srv FIRST x\r\n"
 	for i := 0; i < inb; i++ {
-		stream += "EV " + vItoa(i) + "\r\n"
+		switch i % 4 { // a mixed backlog: lines with built-in handlers that read / update the client's own state
+		case 1:
+			stream += ":srv 001 me :welcome\r\n"
+		case 2:
+			stream += ":me!i@h JOIN #c" + vItoa(i) + "\r\n"
+		case 3:
+			stream += ":me MODE me +i\r\n"
+		default:
+			stream += "EV " + vItoa(i) + "\r\n"
+		}
 	}
 	w := vNewLiveWire(stream)
 	w.writeGate = make(chan struct{}, outb+8)
@@ -43,17 +52,27 @@ func VerifC07Teardown() {
 	gate := make(chan struct{})
 	var mu sync.Mutex
 	disc, evs, closed := 0, 0, 0
+	producer := vParam("PRODUCER", 0) // 0: the handler of FIRST emits the lines; 1: a user goroutine does
 	conn.HandleFunc("FIRST", func(c *Conn, l *Line) {
-		for i := 0; i < outb; i++ {
-			c.Raw("PRIVMSG #c :" + vItoa(i))
+		if producer == 0 {
+			for i := 0; i < outb; i++ {
+				c.Raw("PRIVMSG #c :" + vItoa(i))
+			}
+			<-gate
 		}
-		<-gate
 	})
 	conn.HandleFunc("EV", func(*Conn, *Line) { mu.Lock(); evs++; mu.Unlock() })
 	conn.HandleFunc(DISCONNECTED, func(*Conn, *Line) { mu.Lock(); disc++; mu.Unlock() })
 	ctx, cancel := context.WithCancel(context.Background())
 	err := conn.ConnectContext(ctx)
 	vAssert(err == nil, "connect-ok")
+	if producer == 1 {
+		go func() {
+			for i := 0; i < outb; i++ {
+				conn.Raw("PRIVMSG #c :" + vItoa(i))
+			}
+		}()
+	}
 	vRunPending() // the handler of FIRST is running (or blocked sending); the backlog piles up
 	cause := vLen("cause", 0, 2)
 	switch cause {
@@ -61,10 +80,14 @@ func VerifC07Teardown() {
 		go func() { conn.Close(); mu.Lock(); closed++; mu.Unlock() }()
 	case 1: // the server goes away
 		w.Close()
-	case 2: // the connect context is cancelled; the peer (which had only stalled) resumes reading
+	case 2: // the connect context is cancelled
 		cancel()
-		for i := 0; i < outb+4; i++ {
-			w.writeGate <- struct{}{}
+		if producer == 0 {
+			// the event loop is stuck behind the sending handler: the peer (which had only stalled) resumes
+			// reading. With a user goroutine producing, the idle event loop must notice the cancellation itself.
+			for i := 0; i < outb+4; i++ {
+				w.writeGate <- struct{}{}
+			}
 		}
 	}
 	vRunPending()
